@@ -117,7 +117,8 @@ class SafetyMonitor(Monitor):
             ex.report('C17', 'started job offered as ready again: %s' % sorted(ready & dv.started), st)
         if running != set(dv.running):
             ex.report('C17', 'running set %s disagrees with driver events %s' % (sorted(running), sorted(dv.running)), st)
-        if failed != set(dv.failed):
+        # a job that was running when the evaluation was aborted may be reported failed or aborted
+        if not (set(dv.failed) <= failed <= set(dv.failed) | set(dv.at_abort)):
             ex.report('C17', 'failed set %s disagrees with driver events %s' % (sorted(failed), sorted(dv.failed)), st)
         if (dv.offered - dv.acked) - cleanup:
             ex.report('C13', 'cleanup offer withdrawn before acknowledgement: %s' % sorted((dv.offered - dv.acked) - cleanup), st)
